@@ -24,6 +24,14 @@ THEOREMS = [
     "Cv.c6w_layer",
     "Cv.c6w_ecc",
     "Cv.c6w_wide",
+    "Cv.C07e.encoded_walksClassic_spec",
+    "Cv.C07e.encoded_walksNbt_spec",
+    "Cv.C07e.encoded_walksBfs_spec",
+    "Cv.C07e.encoded_walksBfs_exact",
+    "Cv.C07e.plain_walksClassic_spec",
+    "Cv.C07e.plain_walksNbt_spec",
+    "Cv.C07e.plain_walksBfs_spec",
+    "Cv.C07e.plain_walksBfs_exact",
 ]
 
 
@@ -245,7 +253,7 @@ def main():
         body = json.load(open(os.path.join(VERIF, ck.replay) if not os.path.isabs(ck.replay) else ck.replay))
         ck.guard(run_hashset if body["case"].get("op") == "hashset" else run_case, ck, body["case"])
         ck.finish(rule="replay of one recorded case (fresh random draws)")
-    ck.lean_obligations("CvProps.C07", THEOREMS)
+    ck.lean_obligations(["CvProps.C07", "CvProps.C07e"], THEOREMS)
     for case in json.load(open(os.path.join(VERIF, "harness", "corpus", "C07.json"))):
         ck.guard(run_case, ck, case)
         ck.count("corpus")
